@@ -306,6 +306,21 @@ def make_step(uname, op, nmax, operand="keyed", bad=None):
                 rmodel[k] = r[k]
             observe(r, rmodel, U, univ, f"{op}-result")
             unchanged(f"{op}-receiver")
+            # the result is a KeyedSet like its operands: same key function AND same equivalence setting
+            if rmodel and uname in ("tuple", "list", "spec"):
+                k0 = next(iter(rmodel))
+                stored = rmodel[k0]
+                other_payload = U.mk(U.keys.index(k0), 7)  # same key, different payload
+                if not (stored == other_payload):
+                    try:
+                        r.add(other_payload)
+                        raised = None
+                    except Exception as ex:
+                        raised = ex
+                    if e:
+                        check(isinstance(raised, ValueError), "the result of a set operator enforces item equivalence like its operands", f"C14/{op}/result-lost-equivalence-setting", lambda: repr(raised))
+                    else:
+                        check(raised is None, "the result of a set operator of non-enforcing operands does not enforce", f"C14/{op}/result-gained-equivalence-setting", lambda: repr(raised))
             return "ok"
         if op == "le":
             check((s <= other) == (ka <= kb), "<= follows set algebra on keys", "C14/le/result")
